@@ -60,6 +60,12 @@ class SimRcs380(object):
     def __init__(self):
         self.rf_rsp = b""            # data received from the remote device
         self.tg_head = b"\x0b\x00\x03"   # TgCommRF: bit rate 106A, ?, passive flags
+        # C14, CRC ownership: `air` = the card's answer on the air INCLUDING CRC_A; InCommRF then honours the
+        # InSetProtocol setting check_crc (item 02h): 1 -> verified and stripped by the chip (CRC_ERROR status
+        # if wrong), 0 -> the raw frame, CRC bytes included, goes to the host
+        self.air = None
+        self.check_crc = 1
+        self.chip_checked_crc = 0
         self.log = []
         self.frames = []
         self.fault = None
@@ -117,6 +123,19 @@ class SimRcs380(object):
         return [ACK, damage(self._frame(code, rsp), f)]
 
     def _default(self, code, data):
+        if code == 0x02:
+            for i in range(0, len(data) - 1, 2):
+                if data[i] == 0x02:
+                    self.check_crc = data[i + 1]
+        if code == 0x04 and self.air is not None:
+            from .chip_crc import crc_a_bytes
+            air = bytes(self.air)
+            if self.check_crc:
+                self.chip_checked_crc += 1
+                if len(air) < 3 or crc_a_bytes(air[:-2]) != air[-2:]:
+                    return b"\x04\x00\x00\x00"                             # CRC_ERROR
+                return b"\x00\x00\x00\x00\x08" + air[:-2]
+            return b"\x00\x00\x00\x00\x08" + air
         if code == 0x04:
             return b"\x00\x00\x00\x00\x08" + bytes(self.rf_rsp)
         if code == 0x48:
